@@ -5,6 +5,7 @@
        main file, an imported file or a file imported by an imported file, x text layouts (empty lines,
        indentation per file) x single references / elements of a list reference with separator x
        string / file loads x providers; duplicates living in a builtin model built from a string;
+       comments of exotic characters (no line feeds) in front of the items;
        invariant C28_Location (file of the
        offending text, None for strings; its line and column in that file);
 (S->I) every scenario executed on the real loader; TextXError class/kind, filename, line, col compared;
